@@ -19,7 +19,7 @@ fn rng_free_pad(w: i32) -> i32 {
     if w > 4 { 1 } else { 0 }
 }
 
-fn first_diff(a: &[u32], b: &[u32], w: i32) -> Option<String> {
+pub fn first_diff(a: &[u32], b: &[u32], w: i32) -> Option<String> {
     a.iter().zip(b.iter()).position(|(x, y)| x != y).map(|i| format!("({},{}): {} vs {}", i as i32 % w, i as i32 / w, hex(a[i]), hex(b[i])))
 }
 
@@ -198,6 +198,41 @@ pub fn run(ctx: &Ctx) -> Outcome {
         }
         if a.get_data().iter().any(|p| *p != c) {
             co.viol("C14", format!("clear({}) did not set every pixel", hex(c)));
+        }
+        // second round on the same two targets: the pixels change behind the drawing calls' back (through the word
+        // or the byte view) or through a call, and the surface is cleared again - to the same colour mostly
+        let how = rng.below(4);
+        let spots: Vec<(usize, u32)> = (0..rng.int(1, 4)).map(|_| (rng.below((w * h) as u64) as usize, premul_pixel(&mut rng))).collect();
+        for dt in [&mut a, &mut b] {
+            match how {
+                0 => {
+                    for (k, v) in &spots {
+                        dt.get_data_mut()[*k] = *v;
+                    }
+                }
+                1 => {
+                    for (k, v) in &spots {
+                        dt.get_data_u8_mut()[4 * k..4 * k + 4].copy_from_slice(&v.to_ne_bytes());
+                    }
+                }
+                2 => {
+                    dt.set_transform(&Transform::identity());
+                    dt.fill_rect((spots[0].0 as i32 % w) as f32, (spots[0].0 as i32 / w) as f32, 1., 1., &Source::Solid(solid(spots[0].1 | 0xff000000)), &opts(BlendMode::Src, 1., true));
+                }
+                _ => {}
+            }
+        }
+        let c2 = if rng.chance(0.7) { c } else { premul_pixel(&mut rng) };
+        a.clear(solid(c2));
+        b.push_clip_rect(IntRect::new(IntPoint::new(0, 0), IntPoint::new(w, h)));
+        b.clear(solid(c2));
+        b.pop_clip();
+        st.add("clear_pairs_after_raw_writes_or_draws", 1);
+        if let Some(d) = first_diff(a.get_data(), b.get_data(), w) {
+            co.viol("C14", format!("a second clear({}) without and with a covering clip rect differ at {} (after {})", hex(c2), d, ["writes through get_data_mut", "writes through get_data_u8_mut", "a fill_rect", "nothing"][how as usize]));
+        }
+        if a.get_data().iter().any(|p| *p != c2) {
+            co.viol("C14", format!("a second clear({}) did not set every pixel (after {})", hex(c2), ["writes through get_data_mut", "writes through get_data_u8_mut", "a fill_rect", "nothing"][how as usize]));
         }
         if want || !co.violations.is_empty() {
             co.desc = Some(J::s(&format!("clear({}) on {}x{} under transform {}", hex(c), w, h, transform_str(&t))));
